@@ -18,9 +18,54 @@
 //! monitoring, linking, and message passing.
 
 use crate::errors::{Error, Result};
-use erltf::OwnedTerm;
+use erltf::{BigInt, OwnedTerm};
 use std::convert::TryFrom;
 use std::mem;
+
+/// Reads the id of an UNLINK_ID / UNLINK_ID_ACK message: a non-negative integer of at most
+/// 64 bits. Anything outside the 32-bit encodings arrives as a big integer.
+fn unlink_id_from_term(term: &OwnedTerm, what: &str) -> Result<u64> {
+    match term {
+        OwnedTerm::Integer(i) => u64::try_from(*i).map_err(|_| {
+            Error::InvalidControlMessage(format!("{} id must be non-negative: {}", what, i))
+        }),
+        OwnedTerm::BigInt(big) => {
+            let significant = big
+                .digits
+                .iter()
+                .rposition(|&d| d != 0)
+                .map_or(0, |p| p + 1);
+            if significant > 0 && big.sign.is_negative() {
+                return Err(Error::InvalidControlMessage(format!(
+                    "{} id must be non-negative",
+                    what
+                )));
+            }
+            if significant > 8 {
+                return Err(Error::InvalidControlMessage(format!(
+                    "{} id must fit in 64 bits",
+                    what
+                )));
+            }
+            Ok(big.digits[..significant]
+                .iter()
+                .rev()
+                .fold(0u64, |acc, &digit| (acc << 8) | digit as u64))
+        }
+        _ => Err(Error::InvalidControlMessage(format!(
+            "{} id must be an integer",
+            what
+        ))),
+    }
+}
+
+/// Writes an unlink id: ids beyond `i64::MAX` need a big integer.
+fn unlink_id_to_term(id: u64) -> OwnedTerm {
+    match i64::try_from(id) {
+        Ok(i) => OwnedTerm::Integer(i),
+        Err(_) => OwnedTerm::BigInt(BigInt::new(false, id.to_le_bytes().to_vec())),
+    }
+}
 
 /// Control message types (first element of control tuple)
 #[derive(Debug, Clone, Copy, PartialEq, Eq)]
@@ -376,38 +421,20 @@ impl ControlMessage {
             }),
 
             Some(ControlMessageType::UnlinkId) if elements.len() == 4 => {
-                let id_raw = elements[1].as_integer().ok_or_else(|| {
-                    Error::InvalidControlMessage("UNLINK_ID id must be an integer".to_string())
-                })?;
-
-                if id_raw < 0 {
-                    return Err(Error::InvalidControlMessage(format!(
-                        "UNLINK_ID id must be non-negative: {}",
-                        id_raw
-                    )));
-                }
+                let id = unlink_id_from_term(&elements[1], "UNLINK_ID")?;
 
                 Ok(ControlMessage::UnlinkId {
-                    id: id_raw as u64,
+                    id,
                     from_pid: elements[2].clone(),
                     to_pid: elements[3].clone(),
                 })
             }
 
             Some(ControlMessageType::UnlinkIdAck) if elements.len() == 4 => {
-                let id_raw = elements[1].as_integer().ok_or_else(|| {
-                    Error::InvalidControlMessage("UNLINK_ID_ACK id must be an integer".to_string())
-                })?;
-
-                if id_raw < 0 {
-                    return Err(Error::InvalidControlMessage(format!(
-                        "UNLINK_ID_ACK id must be non-negative: {}",
-                        id_raw
-                    )));
-                }
+                let id = unlink_id_from_term(&elements[1], "UNLINK_ID_ACK")?;
 
                 Ok(ControlMessage::UnlinkIdAck {
-                    id: id_raw as u64,
+                    id,
                     from_pid: elements[2].clone(),
                     to_pid: elements[3].clone(),
                 })
@@ -648,7 +675,7 @@ impl ControlMessage {
                 to_pid,
             } => OwnedTerm::Tuple(vec![
                 OwnedTerm::Integer(ControlMessageType::UnlinkId as i64),
-                OwnedTerm::Integer(*id as i64),
+                unlink_id_to_term(*id),
                 from_pid.clone(),
                 to_pid.clone(),
             ]),
@@ -659,7 +686,7 @@ impl ControlMessage {
                 to_pid,
             } => OwnedTerm::Tuple(vec![
                 OwnedTerm::Integer(ControlMessageType::UnlinkIdAck as i64),
-                OwnedTerm::Integer(*id as i64),
+                unlink_id_to_term(*id),
                 from_pid.clone(),
                 to_pid.clone(),
             ]),
@@ -973,7 +1000,7 @@ impl ControlMessage {
                 to_pid,
             } => OwnedTerm::Tuple(vec![
                 OwnedTerm::Integer(ControlMessageType::UnlinkId as i64),
-                OwnedTerm::Integer(id as i64),
+                unlink_id_to_term(id),
                 from_pid,
                 to_pid,
             ]),
@@ -984,7 +1011,7 @@ impl ControlMessage {
                 to_pid,
             } => OwnedTerm::Tuple(vec![
                 OwnedTerm::Integer(ControlMessageType::UnlinkIdAck as i64),
-                OwnedTerm::Integer(id as i64),
+                unlink_id_to_term(id),
                 from_pid,
                 to_pid,
             ]),
